@@ -121,7 +121,9 @@ def fuelFor : List Str → Nat
 
 /-- `byteTextWrap(text, size)` where `chunks = TextWrapper()._split_chunks(text)` -/
 def byteTextWrap (chunks : List Str) (size : Nat) : WrapRes :=
-  wrapLoop size (fuelFor chunks) chunks [[]]
+  -- `size = max(size, 4)`: a line must be able to hold one character (a negative size, which the
+  -- callers' subtractions can produce, is 0 here and clamped the same way)
+  wrapLoop (max size Gen.minWrapSize) (fuelFor chunks) chunks [[]]
 
 /-! ## ircutils.FormatContext -/
 
@@ -275,10 +277,9 @@ def processLines : Option Ctx → List Str → List Str
 /-- `ircutils.wrap(s, length)`, `chunks = TextWrapper()._split_chunks(s)` -/
 def ircWrap (chunks : List Str) (s : Str) (length : Nat) : WrapRes :=
   let overhead := (parse s).maxSize
-  if length < overhead then .unsupported
-  else match byteTextWrap chunks (length - overhead) with
-    | .ok lines => .ok (processLines none lines)
-    | e => e
+  match byteTextWrap chunks (length - overhead) with
+  | .ok lines => .ok (processLines none lines)
+  | e => e
 
 /-- number of bytes `ctx.start` puts in front of a chunk -/
 def Ctx.startCost (c : Ctx) : Nat := blen (colorPrefix c) + b2n c.underline + b2n c.reverse + b2n c.bold
@@ -528,8 +529,7 @@ def reply (e : Env) (cfg : Cfg) (chunks : List Str) (s : Str) : ReplyRes :=
     if single then .sent [makeReply e s1] none
     else
       let reserve := suffixReserve e.texts (blen s1)
-      if allowed < reserve then .unsupported
-      else match ircWrap chunks s1 (allowed - reserve) with
+      match ircWrap chunks s1 (allowed - reserve) with
         | .ok lines =>
           -- `chunks = chunks[:maximumMores]`: reply.mores.maximum is the maximum number of chunks
           deliver e cfg (lines.take cfg.maximumMores)
